@@ -518,6 +518,9 @@ type swCase struct {
 	// values of Sch, a setter that is never called leaves the documented default (open -10,
 	// extend -0.5, built-in matrix)
 	Calls []setterCall `json:"calls,omitempty"`
+	// Plan: when set, the two sequences are not constructed afresh: they are the rows of an
+	// alignment obtained through this chain of public operations (gen.BuildVia) and un-aligned
+	Plan *gen.Plan `json:"plan,omitempty"`
 }
 
 func allIn(s string, t *table) bool {
@@ -612,9 +615,47 @@ func genCalls(t *rapid.T, sch scheme) []setterCall {
 	return calls
 }
 
+// swAli: the two sequences as rows of one alignment (the shorter one padded with gaps at its end)
+func swAli(c swCase) gen.Ali {
+	pad := func(s string, n int) string { return s + strings.Repeat("-", n-len(s)) }
+	n := len(c.S1)
+	if len(c.S2) > n {
+		n = len(c.S2)
+	}
+	alphabet := "nt"
+	if c.Kind == "aa" {
+		alphabet = "aa"
+	}
+	return gen.Ali{Alphabet: alphabet, Rows: []gen.Row{{Name: "query", Seq: pad(c.S1, n)}, {Name: "subject", Seq: pad(c.S2, n)}}}
+}
+
+// provenance of the last runLibrary call (classes only)
+var lastProvenance string
+
 func runLibrary(c swCase) (ob obs, al align.Alignment, s1, s2 align.Sequence, err error) {
-	s1 = align.NewSequence("query", []uint8(c.S1), "comment one")
-	s2 = align.NewSequence("subject", []uint8(c.S2), "comment two")
+	lastProvenance = ""
+	if c.Plan != nil {
+		lastProvenance = "provenance-unusable"
+		if src, usable := gen.BuildVia(swAli(c), *c.Plan); usable {
+			bag := src.Unalign()
+			q1, ok1 := bag.Sequence(0)
+			q2, ok2 := bag.Sequence(1)
+			if ok1 && ok2 && bag.NbSequences() == 2 && q1.Sequence() == c.S1 && q2.Sequence() == c.S2 && q1.Name() == "query" && q2.Name() == "subject" {
+				s1, s2 = q1, q2
+				lastProvenance = "provenance:" + c.Plan.String()
+			}
+		}
+	}
+	if s1 == nil {
+		s1 = align.NewSequence("query", []uint8(c.S1), "comment one")
+		s2 = align.NewSequence("subject", []uint8(c.S2), "comment two")
+	}
+	comment1, comment2 := s1.Comment(), s2.Comment()
+	defer func() {
+		if s1.Comment() != comment1 || s2.Comment() != comment2 {
+			err = fmt.Errorf("the comments of the input sequences were modified: %q %q", s1.Comment(), s2.Comment())
+		}
+	}()
 	a := align.NewPwAligner(s1, s2, align.ALIGN_ALGO_SW)
 	if len(c.Calls) > 0 {
 		for _, call := range c.Calls {
@@ -662,9 +703,9 @@ func checkSW(c swCase) (o pbt.Outcome, err error) {
 	}
 	tables, openAlphabet := tablesFor(c)
 	ob, al, q1, q2, e := runLibrary(c)
+	prov := lastProvenance
 	// inputs unmodified, whatever happened
-	if q1.Sequence() != c.S1 || q2.Sequence() != c.S2 || q1.Name() != "query" || q2.Name() != "subject" ||
-		q1.Comment() != "comment one" || q2.Comment() != "comment two" {
+	if q1.Sequence() != c.S1 || q2.Sequence() != c.S2 || q1.Name() != "query" || q2.Name() != "subject" {
 		return o, fmt.Errorf("the input sequences were modified: %s=%q %s=%q", q1.Name(), q1.Sequence(), q2.Name(), q2.Sequence())
 	}
 	if e != nil {
@@ -720,6 +761,16 @@ tables:
 	}
 	classify(&o, c.S1, c.S2, c.Sch, in)
 	o.Class("alphabet=%s", c.Kind)
+	if prov != "" {
+		if strings.HasPrefix(prov, "provenance:") {
+			o.Class("provenance:yes")
+			for _, k := range c.Plan.Kinds() {
+				o.Class("provenance-step:%s", k)
+			}
+		} else {
+			o.Class(prov)
+		}
+	}
 	if len(c.Calls) > 0 {
 		order := ""
 		for _, call := range c.Calls {
@@ -1121,6 +1172,11 @@ func genSW(t *rapid.T) swCase {
 		}
 	}
 	c.S1, c.S2 = softMask(t, c.S1, c.S2)
+	if rapid.IntRange(0, 3).Draw(t, "provenance") == 0 {
+		// the sequences come out of an alignment that was cloned, renamed, cut, cleaned, re-parsed ...
+		p := gen.DrawPlan(t, swAli(c), "ACGT-", 3)
+		c.Plan = &p
+	}
 	return c
 }
 
@@ -1233,6 +1289,13 @@ type cliCase struct {
 	GiveMatch, GiveMismatch, GiveOpen, GiveExtend bool
 	Sch                                           scheme `json:"scheme"`
 	ToFile                                        bool   `json:"tofile"`
+	// Layout: presentation of the input FASTA file (wrapped lines, blocks, CRLF, ...)
+	Layout cli.Layout `json:"layout"`
+	// NoLog: -l not given (default "none"); OutState / LogState: what is at the path given to -o / -l
+	// before the run: 0 an empty file, 1 nothing, 2 a longer file left by an earlier run
+	NoLog    bool `json:"nolog"`
+	OutState int  `json:"outstate"`
+	LogState int  `json:"logstate"`
 }
 
 func parseLog(s string) (ob obs, err error) {
@@ -1271,6 +1334,11 @@ func parseLog(s string) (ob obs, err error) {
 		return ob, fmt.Errorf("log without the alignment block: %q", s)
 	}
 	ob.Row1, ob.Row2 = lines[8], lines[10]
+	for _, l := range lines[11:] {
+		if l != "" {
+			return ob, fmt.Errorf("log continues behind the alignment block: %q", l)
+		}
+	}
 	return
 }
 
@@ -1331,13 +1399,31 @@ func TestCLI(t *testing.T) {
 			}
 			c.Seqs[1].Seq = c.Seqs[1].Seq + c.Seqs[0].Seq[:90]
 		}
+		c.Layout = cli.DrawLayout(t)
+		c.NoLog = rapid.IntRange(0, 5).Draw(t, "nolog") == 0
+		c.OutState = rapid.SampledFrom([]int{0, 1, 2, 2}).Draw(t, "outstate")
+		c.LogState = rapid.SampledFrom([]int{0, 1, 2, 2}).Draw(t, "logstate")
 		return c
 	}, func(c cliCase) (o pbt.Outcome, err error) {
-		in := cli.TempFile(dir, ".fa", cli.Fasta(c.Seqs))
+		in := cli.TempFile(dir, ".fa", cli.FastaLayout(c.Seqs, c.Layout))
 		logf := cli.TempFile(dir, ".log", "")
 		outf := cli.TempFile(dir, ".out", "")
 		defer func() { os.Remove(in); os.Remove(logf); os.Remove(outf) }()
-		args := []string{"sw", "-i", in, "-l", logf}
+		for _, f := range []struct {
+			path  string
+			state int
+		}{{outf, c.OutState}, {logf, c.LogState}} {
+			switch f.state {
+			case 1:
+				os.Remove(f.path)
+			case 2:
+				cli.StaleFile(f.path, 60)
+			}
+		}
+		args := []string{"sw", "-i", in}
+		if !c.NoLog {
+			args = append(args, "-l", logf)
+		}
 		if c.GiveMatch {
 			args = append(args, fmt.Sprintf("--match=%g", c.Sch.Match))
 		}
@@ -1375,6 +1461,40 @@ func TestCLI(t *testing.T) {
 		rows, perr := cli.ParseFasta(out)
 		if perr != nil || len(rows) != 2 {
 			return o, fmt.Errorf("goalign %v: output is not two FASTA records: %q", args, out)
+		}
+		if c.NoLog {
+			// only the alignment is observable: two rows under the input names, without an all-gap
+			// column, spelling substrings of the inputs, and - some local alignment being positive -
+			// scoring the optimum
+			if rows[0].Name != "query" || rows[1].Name != "subject" || len(rows[0].Seq) != len(rows[1].Seq) {
+				return o, fmt.Errorf("goalign %v: output %s", args, gen.Show(rows))
+			}
+			for k := range rows[0].Seq {
+				if rows[0].Seq[k] == '-' && rows[1].Seq[k] == '-' {
+					return o, fmt.Errorf("goalign %v: all-gap column in %s", args, gen.Show(rows))
+				}
+			}
+			if !strings.Contains(c.Seqs[0].Seq, ungap(rows[0].Seq)) || !strings.Contains(c.Seqs[1].Seq, ungap(rows[1].Seq)) {
+				return o, fmt.Errorf("goalign %v: the rows %s are not substrings of the inputs", args, gen.Show(rows))
+			}
+			tb := dnaTable
+			if c.Kind == "aa" {
+				tb = protTable
+			}
+			ok := false
+			var opt, got float64
+			for _, rd := range readingsOf(c.Sch, tb, hasLower(c.Seqs[0].Seq+c.Seqs[1].Seq)) {
+				opt = gotoh(c.Seqs[0].Seq, c.Seqs[1].Seq, rd.sub, c.Sch.Open, c.Sch.Extend)
+				got = scoreRows(rows[0].Seq, rows[1].Seq, rd.sub, c.Sch.Open, c.Sch.Extend)
+				ok = ok || opt <= 0 || got == opt
+			}
+			if !ok {
+				return o, fmt.Errorf("goalign %v: the rows written %s score %g, the optimum is %g", args, gen.Show(rows), got, opt)
+			}
+			o.NonTrivial = opt > 0
+			o.Class("no-log")
+			o.Class("out-file-state=%d,tofile=%v", c.OutState, c.ToFile)
+			return o, nil
 		}
 		lb, _ := os.ReadFile(logf)
 		ob, lerr := parseLog(string(lb))
@@ -1416,6 +1536,16 @@ func TestCLI(t *testing.T) {
 		o.Class("flags:match=%v,mismatch=%v", c.GiveMatch, c.GiveMismatch)
 		o.Class("flags:open=%v,extend=%v", c.GiveOpen, c.GiveExtend)
 		o.Class("alphabet=%s", c.Kind)
+		if !c.Layout.Plain() {
+			o.Class("input-layout:not-plain")
+			if c.Layout.Blocks > 0 {
+				o.Class("input-layout:blocks")
+			}
+		}
+		if c.ToFile {
+			o.Class("out-file-state=%d", c.OutState)
+		}
+		o.Class("log-file-state=%d", c.LogState)
 		return o, nil
 	})
 }
